@@ -137,6 +137,37 @@ v("C16", "negative-max-failures-accepted", VA, "\tif cfg.MaxConsecutiveFailures 
 v("C16", "store-contacted-before-validation", KV, "\tif err := validateConfig(cfg); err != nil {\n\t\treturn nil, err\n\t}\n\n\tjs, err := nc.JetStream()\n\tif err != nil {\n\t\treturn nil, fmt.Errorf(\"failed to get JetStream: %w\", err)\n\t}\n",
   "\tjs, err := nc.JetStream()\n\tif err != nil {\n\t\treturn nil, fmt.Errorf(\"failed to get JetStream: %w\", err)\n\t}\n\n\tif err := validateConfig(cfg); err != nil {\n\t\treturn nil, err\n\t}\n", ["C16-R2"], "the provider is contacted before the configuration is validated")
 v("C16", "wrong-field-named", VA, "return NewValidationError(\"Group\", cfg.Group, \"group name is required\")", "return NewValidationError(\"Bucket\", cfg.Group, \"group name is required\")", ["C16-R1"], "the error for an empty group names Bucket")
+# ---- rules added after the fifth seeding round
+v("C17", "getter-refreshes-breaker-state", RT, "func (cb *CircuitBreaker) Call(fn func() error) error {",
+  "// State reports the state the next Call will find.\nfunc (cb *CircuitBreaker) State() CircuitState {\n\tcb.mu.Lock()\n\tdefer cb.mu.Unlock()\n\tif cb.state == CircuitStateOpen && time.Since(cb.lastFailureTime) >= cb.cooldownPeriod {\n\t\tcb.state = CircuitStateHalfOpen\n\t\tcb.failures = 0\n\t}\n\treturn cb.state\n}\n\nfunc (cb *CircuitBreaker) Call(fn func() error) error {",
+  ["C17-R6"], "a State() accessor moves the breaker to half-open and clears the count")
+v("C16", "constructor-probes-bucket-first", EL, "func NewElection(nc JetStreamProvider, cfg ElectionConfig) (Election, error) {\n\treturn newKVElection(nc, cfg)",
+  "func bucketReachable(nc JetStreamProvider, bucket string) bool {\n\tjs, err := nc.JetStream()\n\tif err != nil {\n\t\treturn false\n\t}\n\t_, err = js.KeyValue(bucket)\n\treturn err == nil\n}\n\nfunc NewElection(nc JetStreamProvider, cfg ElectionConfig) (Election, error) {\n\tif !bucketReachable(nc, cfg.Bucket) {\n\t\ttime.Sleep(10 * time.Millisecond)\n\t}\n\treturn newKVElection(nc, cfg)",
+  ["C16-R2"], "NewElection probes the bucket through a helper before the configuration is validated")
+v("C14", "watcher-stop-closes-only-on-success", EL, "\ta.stopOnce.Do(func() { close(a.done) })\n\t_ = a.watcher.Stop()",
+  "\ta.stopOnce.Do(func() {\n\t\tif err := a.watcher.Stop(); err != nil {\n\t\t\treturn\n\t\t}\n\t\tclose(a.done)\n\t})",
+  ["C14-R4"], "the watcher adapter releases its forwarding goroutine only if the unsubscribe succeeded")
+v("C11", "monitor-drops-repeated-reconnect", CN, "func (m *natsConnectionMonitor) handleReconnect(nc *nats.Conn) {\n\tm.status.Store(ConnectionStatusReconnected)",
+  "func (m *natsConnectionMonitor) handleReconnect(nc *nats.Conn) {\n\tif m.Status() != ConnectionStatusDisconnected {\n\t\treturn\n\t}\n\tm.status.Store(ConnectionStatusReconnected)",
+  ["C11-R6"], "the connection monitor forwards a reconnect only if its own status word says disconnected")
+v("C19", "onpromote-supervised-in-goroutine", KV, "\te.onPromote = fn\n}",
+  "\tif fn == nil {\n\t\te.onPromote = nil\n\t\treturn\n\t}\n\tlimit := e.cfg.TTL\n\te.onPromote = func(ctx context.Context, token string) {\n\t\tdone := make(chan struct{})\n\t\tgo func() {\n\t\t\tdefer close(done)\n\t\t\tfn(ctx, token)\n\t\t}()\n\t\tselect {\n\t\tcase <-done:\n\t\tcase <-time.After(limit):\n\t\t}\n\t}\n}",
+  ["C19-R3"], "OnPromote installs a wrapper that runs the callback on another goroutine and stops waiting after one TTL")
+v("C04", "no-demotion-once-start-context-cancelled", KV, "\tif fromState == StateStopped {\n\t\treturn false\n\t}\n\n\te.isLeader.Store(false)",
+  "\tif fromState == StateStopped || e.ctx == nil || e.ctx.Err() != nil {\n\t\treturn false\n\t}\n\n\te.isLeader.Store(false)",
+  ["C04-R7"], "enterFollowerState refuses to clear the claim once the election context is done")
+v("C05", "adopt-own-recreated-record", KV, "func (e *kvElection) discardUnclaimedRecord(rev uint64) {\n",
+  "func (e *kvElection) discardUnclaimedRecord(rev uint64) {\n\te.mu.Lock()\n\tif e.isLeader.Load() && rev > e.revision.Load() {\n\t\te.revision.Store(rev)\n\t\te.mu.Unlock()\n\t\treturn\n\t}\n\te.mu.Unlock()\n",
+  ["C05-R6"], "a running term adopts the revision of a record its own leftover acquisition re-created under another token")
+v("C01", "observe-leader-check-and-store-in-two-holds", KV, "\tif e.isLeader.Load() {\n\t\treturn\n\t}\n\te.leaderID.Store(id)",
+  "\tif e.isLeader.Load() {\n\t\treturn\n\t}\n\te.mu.Unlock()\n\te.getLogger().Debug(\"leader_observed\")\n\te.mu.Lock()\n\te.leaderID.Store(id)",
+  ["C01-R4"], "observeLeader tests the claim in one lock hold and stores the observed revision in the next")
+v("C13", "lenient-priority-decoder", KV, "func (e *kvElection) discardUnclaimedRecord(rev uint64) {\n",
+  "// UnmarshalJSON accepts records of older writers.\nfunc (p *leadershipPayload) UnmarshalJSON(b []byte) error {\n\ttype plain leadershipPayload\n\tvar q plain\n\tif err := json.Unmarshal(b, &q); err != nil {\n\t\tvar loose struct {\n\t\t\tID    string `json:\"id\"`\n\t\t\tToken string `json:\"token\"`\n\t\t}\n\t\tif err2 := json.Unmarshal(b, &loose); err2 != nil {\n\t\t\treturn err\n\t\t}\n\t\tq.ID, q.Token = loose.ID, loose.Token\n\t}\n\t*p = leadershipPayload(q)\n\treturn nil\n}\n\nfunc (e *kvElection) discardUnclaimedRecord(rev uint64) {\n",
+  ["C13-R8"], "the record type gets a lenient UnmarshalJSON that reads an unreadable priority as 0")
+v("C10", "takeover-retry-without-recheck", KV, "\tnewRev, err := e.kv.Update(e.key, payloadBytes, entry.Revision())\n\tif err != nil {",
+  "\tnewRev, err := e.kv.Update(e.key, payloadBytes, entry.Revision())\n\tif err != nil && !IsPermanentError(err) {\n\t\tif latest, gerr := e.kv.Get(e.key); gerr == nil && latest != nil {\n\t\t\tnewRev, err = e.kv.Update(e.key, payloadBytes, latest.Revision())\n\t\t}\n\t}\n\tif err != nil {",
+  ["C10-R1"], "a failed takeover write is retried with a freshly read revision without repeating the priority comparison")
 # ---- C17
 v("C17", "six-attempts", KV, "maxRetries  = 3", "maxRetries  = 5", ["C17-R1"], "an acquisition round makes six attempts")
 v("C17", "breaker-opens-late", RT, "if cb.failures >= cb.failureThreshold {", "if cb.failures > cb.failureThreshold {", ["C17-R2"], "the breaker opens one failure late")
